@@ -46,6 +46,7 @@ def bounds(tier):
     A, Bmax, D = PARAMS[tier]
     A2, B2, D2 = PARAMS2[tier]
     return {"live arrays": A, "bins per array": Bmax, "depth": D, "items": VAL, "managers": ["BinnerKeepingSums", "BinnerKeepingContents"],
+            "wide arrays": f"arrays of {list(WIDE_SIZES[tier])} bins filled by additions to every rotation / reversal / neighbour 3-cycle / riffle / tie pattern of sums, then sort, copy, add, remove, add-empty in short combinations, every step against the model",
             "variants": f"items as freshly built (name, value) records, and item b worth 2**24+1: {A2} live arrays, {B2} bins, depth {D2}"}
 
 
@@ -358,6 +359,53 @@ def expand(arg):
     return res
 
 
+# ------------------------------------------------------------------ wide arrays (many bins)
+
+WIDE_SIZES = {"quick": (4, 8, 9, 10, 12, 17), "thorough": (4, 7, 8, 9, 10, 11, 12, 15, 16, 17, 20, 32, 33)}
+
+
+def _wide_patterns(nb):
+    """sum patterns for an array of nb bins: every rotation of 1..nb, the reversal, every 3-cycle of neighbours, two riffles,
+    and a pattern with ties (equal sums, different contents arise from the item mix)"""
+    base = list(range(1, nb + 1))
+    pats = [base[r:] + base[:r] for r in range(nb)]
+    pats.append(base[::-1])
+    for i in range(nb - 2):
+        p = list(base); p[i], p[i + 1], p[i + 2] = base[i + 2], base[i], base[i + 1]; pats.append(p)
+    pats.append(base[1::2] + base[0::2]); pats.append(base[0::2][::-1] + base[1::2])
+    pats.append([(i * 7) % 5 + 1 for i in range(nb)])
+    pats.append([3 if i % 2 else 4 for i in range(nb)])
+    seen, out = set(), []
+    for p in pats:
+        if tuple(p) not in seen:
+            seen.add(tuple(p)); out.append(p)
+    return out
+
+
+def wide(arg):
+    """worker: arrays of many bins built by additions, then every single follow-up operation, all checked against the model"""
+    kind, nb = arg
+    acc = Acc(ID, "wide-" + kind)
+    for pat in _wide_patterns(nb):
+        hist = [("new", nb)]
+        for i, s in enumerate(pat):
+            # bin i reaches the sum s with a mix of items that differs from bin to bin (b=2, a=1, z=0)
+            n_b = (s // 2) if i % 2 == 0 else max(0, s // 2 - 1)
+            n_a = s - 2 * n_b
+            hist += [("add", 0, "b", i)] * n_b + [("add", 0, "a", i)] * n_a + ([("add", 0, "z", i)] if i % 3 == 0 else [])
+        acc.point(nontrivial=True)
+        for tail in ([("sort", 0)], [("copy", 0)], [("sort", 0), ("add", 0, "b", 0)], [("sort", 0), ("sort", 0)], [("sort", 0), ("remove", 0, 1)],
+                     [("sort", 0), ("add_empty", 0, 1)], [("copy", 0), ("sort", 1)], [("copy", 0), ("sort", 0)], [("sort", 0), ("copy", 0), ("add", 1, "a", nb - 1)]):
+            h = list(hist)
+            for op in tail:
+                r = _step_checked(acc, kind, h, op)
+                h.append(op)
+                if r is None:
+                    break
+    acc.sample({"manager": kind, "bins": nb, "patterns": len(_wide_patterns(nb))})
+    return acc.result()
+
+
 def explore(tier, seed, pmap):
     global EXPLORER_STATS
     stats = {}
@@ -404,6 +452,9 @@ def explore(tier, seed, pmap):
         stats[kind] = {"states": total_states, "new_states_per_depth": per_depth, "max_depth": len(per_depth),
                        "states_with_nontrivial_aliasing_signature": aliased, "frontier_exhausted": not frontier}
         yield acc.result()
+    for res in pmap("wide", [(kind, nb) for kind in ("sums", "contents") for nb in WIDE_SIZES[tier]]):
+        yield res
+    stats["wide arrays"] = {"bins": list(WIDE_SIZES[tier]), "patterns per size": {nb: len(_wide_patterns(nb)) for nb in WIDE_SIZES[tier]}}
     EXPLORER_STATS = stats
 
 
